@@ -61,8 +61,16 @@ class TickClock(C.VirtualClock):
         super().__init__(now)
         self.env = env
 
+    calls = 0
+    world = None
+
     def time(self):
-        self.env.budget('time', 600)
+        self.calls += 1
+        if self.calls > 600:
+            # horizon for a thread that never sleeps: stop it the documented way and remember
+            self.world.never_slept = True
+            self.world.modules.clear()
+        self.env.budget('time', 700)
         self.now = self.now + 1e-6
         return self.now
 
@@ -78,7 +86,13 @@ def build(env, p):
     import frappy.modulebase as mb
     w = World()
     w.env = env
-    w.clock = TickClock(env.real('t0', 1000, 1100), env)
+    if p.get('persistent'):
+        t0 = [1000.0, 1000.37, 1003.999][env.choice('t0', 3)]
+    else:
+        t0 = env.real('t0', 1000, 1100)
+    w.clock = TickClock(t0, env)
+    w.clock.world = w
+    w.never_slept = False
     mb.time = w.clock
     w.log = []
     w.wakeups = 0
@@ -87,6 +101,9 @@ def build(env, p):
     w.nfunc = 0
     w.nfail = 0
     w.comm_failed_at = []
+    if p.get('persistent'):
+        w.persistent_name = ['value', 'status', 'p1'][env.choice('failing', 3)]
+        w.persistent_kind = ['secop', 'silent', 'other'][env.choice('failkind', 3)]
 
     class SilentHW(HardwareError):
         silent = True
@@ -97,7 +114,9 @@ def build(env, p):
         start = w.clock.now
         dur = env.real(f'dur{i}', 0, 8) if i < p.get('nsym', 2) else 0.01
         kind = 'ok'
-        if w.nfail < p.get('nfailsym', 2) and name != 'doPoll':
+        if p.get('persistent') and name == w.persistent_name:
+            kind = w.persistent_kind
+        elif w.nfail < p.get('nfailsym', 2) and name != 'doPoll':
             kind = FAILS[env.choice(f'fail{w.nfail}', len(FAILS))]
             w.nfail += 1
         w.clock.now = w.clock.now + dur
@@ -169,6 +188,10 @@ def cases(tier):
             out.append({'fn': 'run_poll', 'id': f'poll/i{interval}-s{slow}/mods{nmod}',
                         'params': {'interval': interval, 'slow': slow, 'nmod': nmod, 'K': K if nmod == 1 else K - 1, 'change': None,
                                    'nsym': 2 if nmod == 1 or thorough else 1, 'nfailsym': 2 if nmod == 1 or thorough else 1}})
+    out.append({'fn': 'run_poll', 'id': 'persistent-failure', 'params': {'interval': 1, 'slow': 2, 'nmod': 2, 'K': 12, 'change': None,
+                                                                       'nsym': 0, 'nfailsym': 0, 'persistent': True}})
+    out.append({'fn': 'run_poll', 'id': 'change-fast2', 'params': {'interval': 5, 'slow': 15, 'nmod': 1, 'nsym': 1, 'nfailsym': 0,
+                                                                 'K': 5, 'change': 'fast2'}})
     for change in ('interval', 'fast', 'zero'):
         out.append({'fn': 'run_poll', 'id': f'change-{change}', 'params': {'interval': 5, 'slow': 15, 'nmod': 1, 'nsym': 2 if thorough else 1,
                                                                           'nfailsym': 2 if thorough else 1,
@@ -184,6 +207,13 @@ def run_poll(env, p):
         change_at = 1 + env.choice('change_at', max(1, p['K'] - 1))
 
         def on_wakeup(n):
+            if p['change'] == 'fast2':
+                if n == 1:
+                    w.mods[0].setFastPoll(True, 2.0)
+                elif n == 2:
+                    w.log.append(('change', w.clock.now))
+                    w.mods[0].setFastPoll(True, 0.25)
+                return
             if n == change_at:
                 m = w.mods[0]
                 w.log.append(('change', w.clock.now))
@@ -200,6 +230,8 @@ def run_poll(env, p):
         env.fail(K_ + '/poll-thread-died/' + type(e).__name__, repr(e))
         return
     env.check(len(w.started) == 1, K_ + '/started-callback-not-called-once', len(w.started))
+    if p['change'] != 'zero':
+        env.check(not w.never_slept, K_ + '/poll-thread-never-sleeps')
     funcs = [e for e in w.log if e[0] == 'func']
     polls = [e for e in w.log if e[0] == 'doPoll']
     # never polled: p2 (nopoll), p3 (no read method)
@@ -237,7 +269,7 @@ def run_poll(env, p):
     # an interval change takes effect from the next wake-up
     if p['change'] and any(e[0] == 'change' for e in w.log):
         tchange = [e[1] for e in w.log if e[0] == 'change'][0]
-        new = {'interval': 1.0, 'fast': 0.25, 'zero': 0}[p['change']]
+        new = {'interval': 1.0, 'fast': 0.25, 'zero': 0, 'fast2': 0.25}[p['change']]
         later = [e[2] for e in polls if e[2] > tchange]
         if later:
             # first poll after the change comes no later than the new interval (+ work) after the change
